@@ -349,7 +349,7 @@ class Instance(object):
         return dict(Kinds=kinds, Root=root, Group=tuple(w.group),
                     GeomTab=FD((k, g.tla()) for k, g in self.geoms.items()),
                     GridBox=tuple(W.GRID['bbox']), GridRes=tuple(W.GRID['res']), TileSize=tuple(W.GRID['tile_size']),
-                    CombineTileLimits=combine, Requests=frozenset(self.requests), AuthKinds=frozenset(self.auth),
+                    CombineChoices=(frozenset([True, False]) if combine is None else frozenset([bool(combine)])), Requests=frozenset(self.requests), AuthKinds=frozenset(self.auth),
                     PermOpts=frozenset(FD(map=m, featureinfo=f, tile=t) for m, f, t in self.perms),
                     LimIds=frozenset(self.lims), GlobIds=frozenset(self.globs), EntryNames=frozenset(self.entries))
 
@@ -458,7 +458,7 @@ def instances(tier):
     reqs += [mkreq('wms.fi', ['a'], expl=['b'], box=S_TILE, pos=(1, 1)), mkreq('wms.caps')]
     perms = [(True, False, False), (False, True, False), (True, True, True)] + ([(False, False, True), (False, False, False)] if thorough else [])
     out.append(Instance('two-layers', w2, reqs, ['full', 'none', 'unauthenticated', 'partial'], perms,
-                        ['none', 'Ghalf', 'Gring'] + (['Goff'] if thorough else []), ['none', 'Gtop', 'Gdiag'], ['a', 'b']))
+                        ['none', 'Ghalf', 'Gring'] + (['Goff'] if thorough else []), ['none', 'Gtop'] + (['Gdiag'] if thorough else []), ['a', 'b']))
     # E3: three layers with a group
     w3 = W.World({'a': 'wmsT', 'b': 'cache', 'c': 'cachej'})
     seqs = [('g',), ('a', 'g'), ('g', 'a'), ('b',), ('a', 'c'), ('g', 'b'), ('c', 'b', 'a')]
@@ -470,7 +470,7 @@ def instances(tier):
     w4 = W.World({'a': 'wmsT', 'b': 'wmsO', 'c': 'cache'}, group=())
     seqs = [('a', 'b'), ('b', 'a'), ('a', 'b', 'c'), ('c', 'a', 'b'), ('b',)]
     reqs = [mkreq('wms.map', s, box=S_OFF) for s in seqs] + [mkreq('wms.fi', ('a', 'b'), box=S_TILE, pos=(1, 1)), mkreq('wms.caps')]
-    out.append(Instance('opaque', w4, reqs, ['full', 'none', 'partial'], [(True, True, False), (False, True, False)],
+    out.append(Instance('opaque', w4, reqs, ['full', 'none', 'partial'], [(True, True, False)] + ([(False, True, False)] if thorough else []),
                         ['none', 'Ghalf', 'Gring'], ['none', 'Gtop'], ['a', 'b', 'c']))
     # E5: the group layer has sources of its own (then it is one layer for the authorization) and an opaque member
     w5 = W.World({'a': 'wmsT', 'b': 'wmsO'}, group=('b',), group_this='cache')
@@ -504,36 +504,41 @@ class Apps(object):
         self.apps = {}
 
 
-def replay_table(ctx, apps, inst, tables, variant_of_code, label):
-    """tables: {'found': table, 'repaired': table}.  Every case of the table of the variant the code implements is executed
-    on the real application."""
+def replay_table(ctx, apps, inst, tables, label):
+    """tables: {'found': table[, 'repaired': table]}.  Every case is executed on the real application; the observation
+    must be allowed by the model of the code as found or (instances with tile services) by the model with both limits
+    applied.  A response that only the model of the code as found allows, and on which that model violates the property, is
+    a violation of the property by the real code."""
     world = inst.world
     app = apps.get(world)
-    table = tables[variant_of_code if variant_of_code in tables else 'found']
-    nbad = 0
+    table = tables['found']
+    other = tables.get('repaired')
+    nbad = ndefect = 0
     for n, key in enumerate(sorted(table)):
         req, cb, out, pruned, prop_ok, path = table[key]
         variant = n % len(FORMS)
         obs = observe(world, app, req, cb, inst.geoms, variant)
         ctx.cov['replayed_behaviours'] += 1
-        ctx.cov['replayed_steps'] += 1
+        ctx.cov['replayed_steps'] += len(path)
         ctx.count(('case', inst.name, key, obs['status'], json.dumps(obs['px']), tuple(obs['ups']), tuple(obs['infos']), tuple(obs['listing'])))
         bad = compare(out, obs)
+        bad_other = compare(other[key][2], obs) if other else bad
         case = {'instance': inst.name, 'world': world_json(world), 'geoms': {k: g.json() for k, g in inst.geoms.items()},
                 'req': tla.jsonable(req), 'cb': tla.jsonable(cb), 'variant': variant, 'fmt': 'png', 'url': obs['url']}
-        if bad:
+        if bad and bad_other:
             nbad += 1
             what, detail = bad[0]
             ctx.violation({'kind': 'conformance', 'feature': req['f'], 'what': what, 'detail': re.sub(r' \(first at.*', '', detail)},
                           '%s: %s %s under callback %s: %s' % (inst.name, req['f'], describe(req), describe_cb(cb), '; '.join(d for _, d in bad)),
                           case)
-        elif not prop_ok:
-            # the real application behaves like the model of the code as found, and that behaviour violates the property
+        elif not bad and bad_other and not prop_ok:
+            ndefect += 1
             ctx.violation(dict(DEFECT_SIG, service=family(req['f'])),
-                          '%s %s under callback %s: the response is the one Auth.tla (code as found) predicts and it violates '
-                          'the property: the request-wide limited_to is not applied (pixels / feature info outside it are served)'
-                          % (req['f'], describe(req), describe_cb(cb)), case)
-    ctx.log('%s/%s: %d cases executed on the real application, %d not allowed by the spec' % (inst.name, label, len(table), nbad))
+                          '%s %s under callback %s: the response is the one Auth.tla (code as found) predicts and it violates the property: '
+                          'the request-wide limited_to is not applied when the layer has a limited_to of its own (pixels / feature info '
+                          'outside the request-wide area are served)' % (req['f'], describe(req), describe_cb(cb)), case)
+    ctx.log('%s/%s: %d cases executed on the real application, %d not allowed by the spec, %d reproduce a property violation of the '
+            'model of the code as found' % (inst.name, label, len(table), nbad, ndefect))
     return nbad
 
 
@@ -673,8 +678,13 @@ def random_event(rng, world, geoms):
     return req, cb, fmt
 
 
-def event_json(req, cb, obs):
-    return {'req': {'f': req['f'], 'ls': list(req['ls']), 'expl': sorted(req['expl']), 'box': list(req['box']), 'pos': list(req['pos']),
+def event_json(req, cb, obs, geoms):
+    used = sorted(({cb['glob']} | {e['lim'] for e in cb['layers'].values()}) - {'none'})
+    gs = {'Z': CATALOGUE['Gfar']}
+    gs.update((g, geoms[g]) for g in used)
+    return {'geoms': {g: {'xs': [2 * x for x in v.xs], 'ys': [2 * y for y in v.ys], 'cells': [list(c) for c in sorted(v.cells)]}
+                      for g, v in gs.items()},
+            'req': {'f': req['f'], 'ls': list(req['ls']), 'expl': sorted(req['expl']), 'box': list(req['box']), 'pos': list(req['pos']),
                     'lay': req['lay'], 'tile': list(req['tile'])},
             'cb': {'authorized': cb['authorized'], 'glob': cb['glob'],
                    'layers': [[n, e['map'], e['featureinfo'], e['tile'], e['lim']] for n, e in sorted(cb['layers'].items())]},
@@ -682,28 +692,27 @@ def event_json(req, cb, obs):
                     'lossy': bool(obs['lossy'])}}
 
 
-def validate_events(ctx, world, geoms, events, combine, name):
-    """-> (TLC result, accepted ids (1-based), ids whose observation violates the property)"""
+def validate_events(ctx, world, geoms, events, name):
+    """-> (TLC result, ids (1-based) accepted by the model of the code as found, ids accepted by the model with both limits
+    applied, ids whose observation violates the property)"""
     d = ctx.sub(name)
     tf = os.path.join(d, 'batch.json')
     with open(tf, 'w') as f:
         json.dump(events, f)
-    used = {e['cb']['glob'] for e in events} | {row[4] for e in events for row in e['cb']['layers']}
-    used.discard('none')
-    inst = Instance(name, world, [], [], [], [], [], [], geoms={k: geoms[k] for k in sorted(used)} or {'Gfar': CATALOGUE['Gfar']})
-    mp, cp = tlc.write_mc(d, 'Trace_Auth', 'MC_Trace', inst.consts(combine), spec='TraceSpec', post='TraceAccepted')
+    inst = Instance(name, world, [], [], [], [], [], [], geoms={'Z': CATALOGUE['Gfar']})
+    mp, cp = tlc.write_mc(d, 'Trace_Auth', 'MC_Trace', inst.consts(None), spec='TraceSpec', post='TraceAccepted',
+                          invariants=['TypeOK'])
     r = tlc.run(mp, cp, d, workers=1, coverage=False, env={'TRACE_FILE': tf}, timeout=3000)
-    pa, pb = tlc.find_prints(r.out, 'accepted'), tlc.find_prints(r.out, 'obsbad')
-    if not pa or not pb:
+    pa, pc_, pb = tlc.find_prints(r.out, 'accepted'), tlc.find_prints(r.out, 'accepted_combined'), tlc.find_prints(r.out, 'obsbad')
+    if not pa or not pb or not pc_:
         raise tlc.MachineryError('trace validation: no verdict from TLC\n' + r.out[-2500:])
-    return r, {int(x) for x in pa[-1][1]}, {int(x) for x in pb[-1][1]}
+    return r, {int(x) for x in pa[-1][1]}, {int(x) for x in pc_[-1][1]}, {int(x) for x in pb[-1][1]}
 
 
-def random_traces(ctx, apps, code_variant, nworlds, nevents):
-    combine = code_variant == 'repaired'
+def random_traces(ctx, apps, nworlds, nevents):
     total = rejected = obsbad = 0
     for wi in range(nworlds):
-        wd = WORLD_POOL[wi % len(WORLD_POOL)] if wi < len(WORLD_POOL) else ctx.rng.choice(WORLD_POOL)
+        wd = WORLD_POOL[wi % len(WORLD_POOL)]
         world = world_from_json(wd)
         app = apps.get(world)
         geoms, events, meta = {}, [], []
@@ -714,34 +723,33 @@ def random_traces(ctx, apps, code_variant, nworlds, nevents):
             if obs['problems']:
                 ctx.violation({'kind': 'conformance', 'feature': req['f'], 'what': 'harness', 'detail': obs['problems'][0][:80]},
                               'random %s %s: %s' % (req['f'], describe(req), '; '.join(obs['problems'])[:300]), None)
-            events.append(event_json(req, cb, obs))
+            events.append(event_json(req, cb, obs, geoms))
             meta.append((req, cb, variant, fmt, obs))
             ctx.count(('event', wi, k, req['f'], obs['status'], json.dumps(obs['px']), tuple(obs['ups'])))
-        r, accepted, bad = validate_events(ctx, world, geoms, events, combine, 'trace-%d' % wi)
+        r, acc_found, acc_comb, bad = validate_events(ctx, world, geoms, events, 'trace-%d' % wi)
         ctx.cov['traces_validated_against_impl'] += len(events)
         ctx.cov['states'] += r.distinct
         ctx.cov['transitions'] += r.generated
         total += len(events)
         if wi == 0:
-            ctx.sample({'kind': 'recorded request validated by Trace_Auth', 'event': events[0]})
+            ctx.sample({'kind': 'recorded request validated by Trace_Auth', 'event': {k: v for k, v in events[0].items() if k != 'geoms'}})
         for i, (req, cb, variant, fmt, obs) in enumerate(meta):
             case = {'world': wd, 'geoms': {g: geoms[g].json() for g in sorted({cb['glob']} | {e['lim'] for e in cb['layers'].values()}) if g != 'none'},
-                    'req': tla.jsonable(req), 'cb': tla.jsonable(cb), 'variant': variant, 'fmt': fmt, 'url': obs['url'],
-                    'events': [events[i]]}
+                    'req': tla.jsonable(req), 'cb': tla.jsonable(cb), 'variant': variant, 'fmt': fmt, 'url': obs['url']}
             both = (req['f'] in TILE_WITH_COVERAGE and cb['authorized'] == 'partial' and cb['glob'] != 'none'
                     and req['lay'] in cb['layers'] and cb['layers'][req['lay']]['lim'] != 'none')
             if (i + 1) in bad:
                 obsbad += 1
-                if both and not combine and (i + 1) in accepted:
+                if both and (i + 1) in acc_found and (i + 1) not in acc_comb:
                     ctx.violation(dict(DEFECT_SIG, service=family(req['f'])),
                                   'recorded %s %s under callback %s: the observation violates the property (request-wide limited_to '
                                   'not applied) and is what Auth.tla (code as found) predicts' % (req['f'], describe(req), describe_cb(cb)), case)
                 else:
                     ctx.violation({'kind': 'property', 'feature': req['f'], 'what': 'observation-violates-property'},
                                   'TLC: the recorded observation violates the property: %s %s under callback %s -> status %s ups %s infos %s '
-                                  'listing %s' % (req['f'], describe(req), describe_cb(cb), obs['status'], obs['ups'], obs['infos'], obs['listing']),
-                                  case)
-            if (i + 1) not in accepted:
+                                  'listing %s px %s' % (req['f'], describe(req), describe_cb(cb), obs['status'], obs['ups'], obs['infos'],
+                                                        obs['listing'], obs['px']), case)
+            if (i + 1) not in acc_found and (i + 1) not in acc_comb:
                 rejected += 1
                 ctx.violation({'kind': 'trace-rejected', 'feature': req['f'], 'status': obs['status']},
                               'recorded response is not a terminal state of Auth.tla: %s %s under callback %s -> status %s ups %s infos %s '
@@ -754,10 +762,9 @@ TILE_WITH_COVERAGE = ('tms', 'kml', 'wmts.kvp', 'wmts.rest', 'wmts.fi.kvp', 'wmt
 
 
 # ---------------------------------------------------------------------------------------------------------------
-def detect_variant(ctx, apps, inst):
-    """TLC counterexample of the model of the code as found (ClippedOutside / InfoGateOK), replayed on the real
-    application: which variant of authorize_tile_layer does the code implement?"""
-    found = {}
+def attack(ctx, apps, inst, tables):
+    """TLC counterexamples of the model of the code as found (ClippedOutside / InfoGateOK), replayed on the real
+    application"""
     for inv in ('ClippedOutside', 'InfoGateOK'):
         r = run_model(ctx, inst, False, [inv], False, 'attack-' + inv, timeout=600)
         if r.violated != inv or not r.trace:
@@ -768,10 +775,11 @@ def detect_variant(ctx, apps, inst):
         ctx.cov['replayed_behaviours'] += 1
         ctx.cov['replayed_steps'] += len(r.trace)
         ctx.count(('attack', inv))
-        reproduced = not compare(out, obs)
-        found[inv] = reproduced
+        rep = tables['repaired'][case_key(req, cb)]
+        reproduced = not compare(out, obs) and bool(compare(rep[2], obs))
         ctx.log('model (code as found) violates %s on %s %s under %s: %s on the real application' % (
-            inv, req['f'], describe(req), describe_cb(cb), 'REPRODUCED' if reproduced else 'not reproduced'))
+            inv, req['f'], describe(req), describe_cb(cb),
+            'REPRODUCED' if reproduced else 'not reproduced' if compare(out, obs) else 'not decisive (within the one-pixel band)'))
         if reproduced:
             ctx.violation(dict(DEFECT_SIG, service=family(req['f'])),
                           'counterexample of %s found by TLC on Auth.tla (code as found) reproduced on the real application: %s %s under '
@@ -779,9 +787,6 @@ def detect_variant(ctx, apps, inst):
                               inv, req['f'], describe(req), describe_cb(cb)),
                           {'instance': inst.name, 'world': world_json(inst.world), 'geoms': {k: g.json() for k, g in inst.geoms.items()},
                            'req': tla.jsonable(req), 'cb': tla.jsonable(cb), 'variant': 1, 'fmt': 'png', 'url': obs['url']})
-    if len(set(found.values())) != 1:
-        ctx.log('note: tile image and tile feature-info authorization differ in how they combine the limits')
-    return 'found' if any(found.values()) else 'repaired'
 
 
 def run(ctx):
@@ -791,10 +796,6 @@ def run(ctx):
     apps = Apps(ctx)
     try:
         t0 = time.time()
-        code_variant = detect_variant(ctx, apps, insts[0])
-        ctx.log('authorize_tile_layer of the code under test: %s' % (
-            'layer limited_to takes precedence over the request limited_to (as found)' if code_variant == 'found'
-            else 'both limits are applied (repaired)'))
         seen_situations = set()
         npruned = 0
         for inst in insts:
@@ -830,7 +831,9 @@ def run(ctx):
             for vname, t in tables.items():
                 if any(not v[4] for v in t.values()) and not (vname == 'found' and 'repaired' in tables):
                     raise tlc.MachineryError('%s/%s: unexpected property verdicts in the printed table' % (inst.name, vname))
-            replay_table(ctx, apps, inst, tables, code_variant, 'spec->code')
+            if inst is insts[0]:
+                attack(ctx, apps, inst, tables)
+            replay_table(ctx, apps, inst, tables, 'spec->code')
         for need in ('status200', 'status401', 'status403', 'wms:dark', 'wms:content', 'wms:band', 'tms:dark', 'tms:content', 'tms:band',
                      'wmts:dark', 'kml:band', 'wms:info', 'wms:noinfo', 'wmts:info', 'wmts:noinfo'):
             if need not in seen_situations:
@@ -846,7 +849,7 @@ def run(ctx):
         ctx.log('exhaustive instances done  [%.0fs]' % (time.time() - t0))
 
         # (T) code -> spec
-        random_traces(ctx, apps, code_variant, nworlds=(18 if thorough else 6), nevents=(1500 if thorough else 500))
+        random_traces(ctx, apps, nworlds=(18 if thorough else 6), nevents=(1500 if thorough else 500))
     finally:
         apps.close()
     ctx.assumptions += [
@@ -895,13 +898,10 @@ def replay(ctx, data):
         print('observed: status %s upstream %s infos %s listing %s' % (obs['status'], obs['ups'], obs['infos'], obs['listing']))
         for row in obs['px']:
             print('          ' + ' '.join('%-4s' % NAMES_OF.get(c, '?') for c in row))
-        rc = 0
-        for combine in (False, True):
-            r, accepted, bad = validate_events(ctx, world, geoms, [event_json(req, cb, obs)], combine, 'replay-%s' % combine)
-            print('Trace_Auth (%s): %s; property on the observation: %s' % (
-                'both limits applied' if combine else 'code as found', 'accepted' if accepted else 'REJECTED', 'violated' if bad else 'holds'))
-            if bad or (combine and not accepted):
-                rc = 1
+        r, acc_found, acc_comb, bad = validate_events(ctx, world, geoms, [event_json(req, cb, obs, geoms)], 'replay')
+        print('Trace_Auth: %s by the model of the code as found, %s by the model with both limits applied; property on the observation: %s' % (
+            'accepted' if acc_found else 'REJECTED', 'accepted' if acc_comb else 'REJECTED', 'VIOLATED' if bad else 'holds'))
+        rc = 1 if bad or not (acc_found or acc_comb) else 0
         return rc
     finally:
         apps.close()
